@@ -146,3 +146,14 @@ M("c13-video-idx-start", "C13", "VideoReader reports idx relative to start", PR,
 M("c13-get-timeout", "C13", "consumer treats a short get timeout as end of stream", PD,
   "                frame = self.pipeline.frame_buffer.get()\n                if frame[\"image\"] is None:",
   "                try:\n                    frame = self.pipeline.frame_buffer.get(timeout=0.0004)\n                except Exception:\n                    done = True\n                    break\n                if frame[\"image\"] is None:")
+
+M("c16-tpfp-swap", "C16", "tp/fp cumsum swapped", EV, "            tp = np.cumsum(match_scores >= match_score_threshold)\n            fp = np.cumsum(match_scores < match_score_threshold)\n",
+  "            fp = np.cumsum(match_scores >= match_score_threshold)\n            tp = np.cumsum(match_scores < match_score_threshold)\n")
+M("c16-npig-no-fn", "C16", "npig without false negatives", EV, "        npig = len(self.positive_pairs) + len(\n            self.false_negatives\n        )", "        npig = len(self.positive_pairs) + 0 * len(\n            self.false_negatives\n        )")
+M("c16-recall-side-right", "C16", "recall threshold searchsorted side=right", EV, 'rc_inds = np.searchsorted(rc, recall_thresholds, side="left")', 'rc_inds = np.searchsorted(rc, recall_thresholds, side="right")')
+M("c16-pck-le", "C16", "PCK uses a fixed pixel threshold of the first entry for all", EV, "pcks = np.expand_dims(dists, -1) < np.reshape(thresholds, (1, 1, -1))", "pcks = np.expand_dims(dists, -1) < np.reshape(thresholds[::-1], (1, 1, -1))")
+M("c16-nan-dist-zero", "C16", "PCK: missing nodes counted as hits", EV, "        dists[np.isnan(dists)] = np.inf\n        pcks", "        dists[np.isnan(dists)] = 0\n        pcks")
+M("c16-envelope-direction", "C16", "precision envelope forward (makes precision increasing)", EV,
+  "            for i in range(len(pr) - 1, 0, -1):\n                if pr[i] > pr[i - 1]:\n                    pr[i - 1] = pr[i]\n",
+  "            for i in range(1, len(pr)):\n                if pr[i] < pr[i - 1]:\n                    pr[i] = pr[i - 1] * 1.05\n")
+M("c16-moks-over-gt", "C16", "mOKS uses sum over pairs / (pairs+1)", EV, '        return {"mOKS": pair_oks.mean()}', '        return {"mOKS": pair_oks.sum() / (len(pair_oks) + len(self.false_negatives) * 0 + (1 if len(pair_oks) > 7 else 0))}')
